@@ -291,3 +291,17 @@ def c_normalize(ex, st, fr, callee, args):
             s2.tags[("normalize_done", fr.uid, fr.bb)] = True
         forks.append((cond, fix))
     raise Fork(forks, check=False)
+
+
+def approx_rational_cut():
+    """loop-invariant cut for the digit loop of from_float::approx_rational (proved at every visit before it is assumed)"""
+    from mir2smt.exec import Cut
+
+    def digit_loop_invariant(v, j, st_):
+        d = T.I(v["divident"])
+        k = st_.known(d >= 0)
+        A = d if k is True else (-d if k is False else z3.If(d >= 0, d, -d))
+        return [("coeff*divisor + rem = |divident|*10^%d" % j, T.I(v["coeff"]) * T.I(v["divisor"]) + T.I(v["rem"]) == A * 10 ** j),
+                ("0 <= rem < divisor", z3.And(T.I(v["rem"]) >= 0, T.I(v["rem"]) < T.I(v["divisor"]))),
+                ("coeff >= 0", T.I(v["coeff"]) >= 0)]
+    return Cut(["coeff", "rem"], ["divident", "divisor"], digit_loop_invariant, mode="unroll")
